@@ -114,6 +114,10 @@ enum cc_stat cc_pqueue_new_conf(CC_PQueueConf const * const conf, CC_PQueue **ou
     if (!conf->capacity || ex >= CC_MAX_ELEMENTS / conf->capacity)
         return CC_ERR_INVALID_CAPACITY;
 
+    /* The buffer size in bytes must not wrap around either. */
+    if (conf->capacity > CC_MAX_ELEMENTS / sizeof(void*))
+        return CC_ERR_INVALID_CAPACITY;
+
     CC_PQueue *pq = conf->mem_calloc(1, sizeof(CC_PQueue));
 
     if (!pq)
